@@ -163,7 +163,7 @@ theorem find_eq (s : PQ π) (key : Nat → Bool) (rm : Bool) :
 
 /-- `remove(obj)`: ValueError (state unchanged) when the object is absent; else the priority of the
     model's removed entry and the model's state.  (For a heap library whose `pop` fails on a
-    non-empty list the code raises IndexError where the model only says "error"; `remove_eq'` is
+    non-empty list the code raises IndexError where the model only says "error"; `remove_eq_total` is
     the statement for libraries that pop every non-empty heap, e.g. every lawful one.) -/
 theorem remove_eq (s : PQ π) (x : Nat) :
     Gen.PQ.remove H plt s x = match PQ.remove H plt s x with
@@ -225,4 +225,223 @@ theorem reschedule_eq (s : PQ π) (key : Nat → Bool) (np : π) :
     simp_all only [if_true]
     split <;> simp [Ctl.isExit]
 
+/-- `remove` for a heap library that pops every non-empty heap: plain ValueError / the model -/
+theorem remove_eq_total (hpop : ∀ a t, H.pop (Entry.lt plt) (a :: t) ≠ none) (s : PQ π) (x : Nat) :
+    Gen.PQ.remove H plt s x = match PQ.remove H plt s x with
+      | none => (.error .valueError, s)
+      | some (e, s') => (.ok e.pri, s') := by
+  rw [remove_eq]
+  cases hr : PQ.remove H plt s x with
+  | some r => rfl
+  | none =>
+    cases hi : PQ.indexOfObj s.pq x with
+    | none => simp
+    | some i =>
+      exfalso
+      unfold PQ.remove at hr
+      simp only [hi] at hr
+      have hil : i < s.pq.length := by
+        unfold PQ.indexOfObj at hi
+        simp only at hi
+        split at hi
+        · cases hi; assumption
+        · cases hi
+      simp only [List.getElem?_eq_getElem hil] at hr
+      split at hr
+      · cases hl : s.pq with
+        | nil => simp [hl] at hil
+        | cons a t =>
+          rw [hl] at hr
+          cases hp : H.pop (Entry.lt plt) (a :: t) with
+          | none => exact hpop a t hp
+          | some r => simp [hp] at hr
+      · split at hr <;> cases hr
+
+/-! ### `ordereditems()`: the generator, driven by `k × next()` and `close()` -/
+
+/-- the push-back loop of the `finally:` block -/
+theorem pushLoop_eq (popped : List (Entry π)) (k : Nat) (s : PQ π)
+    (f : Entry π × Nat → PQ π → Ctl (PQ π) Empty (Except Exc Unit × PQ π × List (Entry π)))
+    (hf : ∀ it st, f it st = .next ⟨st.seq, H.push (Entry.lt plt) st.pq it.1⟩) :
+    forLoop (popped.zipIdx k) s f = .next ⟨s.seq, PQ.pushAll H plt s.pq popped⟩ := by
+  induction popped generalizing k s with
+  | nil => rfl
+  | cons e es ih => simp only [List.zipIdx_cons, forLoop, hf, PQ.pushAll]; exact ih _ _
+
+/-- the `finally:` block of `ordereditems` is the model's `restore` (and cannot raise) -/
+theorem fin_eq (s : PQ π) (popped : List (Entry π)) :
+    ∃ p', Gen.PQ.ordereditems.fin1 H plt s popped = (.ok (), (⟨s.seq, PQ.restore H plt popped s.pq⟩, p')) := by
+  unfold Gen.PQ.ordereditems.fin1 PQ.restore
+  simp only [lt_eq]
+  by_cases h1 : popped.length ≥ s.pq.length
+  · exact ⟨popped ++ s.pq, by simp [h1]⟩
+  · by_cases h2 : popped.length ≥ s.pq.length / 2
+    · exact ⟨H.heapify (Entry.lt plt) (popped ++ s.pq), by simp [h1, h2]⟩
+    · refine ⟨popped, ?_⟩
+      rw [pushLoop_eq H plt popped 0 s _ (by intro it st; simp)]
+      simp [h1, h2]
+
+/-- `ordereditems` in model terms, written by hand: what one trip round the `while` loop does.
+    `.next`: the heap ran empty (the `finally:` block is still to run); `.ret`: closed at a
+    `yield` (`n = 0`) or `heappop` raised — the `finally:` block has run. -/
+def ordRef : Nat → List (π × Nat) → Nat → List (Entry π) → List (Entry π) →
+    Ctl (PQ π × List (Entry π) × Nat × List (π × Nat)) Empty (GenRes (π × Nat) × PQ π)
+  | n, out, seq, l, popped =>
+    match l with
+    | [] => .next (⟨seq, []⟩, popped, n, out)
+    | a :: t =>
+      match n with
+      | 0 => .ret (⟨out ++ [(a.pri, a.obj)], none⟩, ⟨seq, PQ.restore H plt popped (a :: t)⟩)
+      | n' + 1 =>
+        match H.pop (Entry.lt plt) (a :: t) with
+        | none => .ret (⟨out ++ [(a.pri, a.obj)], some .indexError⟩, ⟨seq, PQ.restore H plt popped (a :: t)⟩)
+        | some (e, l') => ordRef n' (out ++ [(a.pri, a.obj)]) seq l' (popped ++ [e])
+
+theorem loop_eq (n : Nat) (out : List (π × Nat)) (s : PQ π) (popped : List (Entry π)) :
+    Gen.PQ.ordereditems.loop2 H plt s popped n out = ordRef H plt n out s.seq s.pq popped := by
+  induction n generalizing out s popped with
+  | zero =>
+    obtain ⟨seq, l⟩ := s
+    cases l with
+    | nil => unfold Gen.PQ.ordereditems.loop2 ordRef; simp
+    | cons a t =>
+      unfold Gen.PQ.ordereditems.loop2 ordRef
+      obtain ⟨p', hp⟩ := fin_eq H plt ⟨seq, a :: t⟩ popped
+      simp [hp, escaped]
+  | succ n ih =>
+    obtain ⟨seq, l⟩ := s
+    cases l with
+    | nil => unfold Gen.PQ.ordereditems.loop2 ordRef; simp
+    | cons a t =>
+      unfold Gen.PQ.ordereditems.loop2 ordRef
+      obtain ⟨p', hp⟩ := fin_eq H plt ⟨seq, a :: t⟩ popped
+      simp only [lt_eq]
+      cases hpop : H.pop (Entry.lt plt) (a :: t) with
+      | none => simp [hp, hpop, escaped]
+      | some r => obtain ⟨e, l'⟩ := r; simp [hpop, ih]
+
+/-- what the caller of the loop does with its outcome: when the heap ran empty, the `finally:`
+    block (`restore`) runs and the generator is exhausted -/
+def finish : Ctl (PQ π × List (Entry π) × Nat × List (π × Nat)) Empty (GenRes (π × Nat) × PQ π) →
+    GenRes (π × Nat) × PQ π
+  | .ret r => r
+  | .next (s', p', _, out') => (⟨out', none⟩, ⟨s'.seq, PQ.restore H plt p' s'.pq⟩)
+  | .brk e => nomatch e
+
+theorem ordereditems_unfold (s : PQ π) (n : Nat) :
+    Gen.PQ.ordereditems H plt s (n + 1) = finish H plt (ordRef H plt n [] s.seq s.pq []) := by
+  unfold Gen.PQ.ordereditems
+  simp only [loop_eq]
+  cases h : ordRef H plt n [] s.seq s.pq [] with
+  | ret r => rfl
+  | brk e => exact nomatch e
+  | next b =>
+    obtain ⟨s', p', n', out'⟩ := b
+    obtain ⟨p'', hp⟩ := fin_eq H plt s' p'
+    simp [finish, hp]
+
+/-- the number of pops `PQ.ordered` performs for `k = n + 1` -/
+def popsOf (n len : Nat) : Nat := if n + 1 > len then len else n
+
+theorem ordRef_spec (hlen : ∀ l e l', H.pop (Entry.lt plt) l = some (e, l') → l'.length + 1 = l.length)
+    (n : Nat) (out : List (π × Nat)) (seq : Nat) (l popped : List (Entry π)) :
+    (finish H plt (ordRef H plt n out seq l popped)).1.out =
+        out ++ (PQ.yields H plt (n + 1) l).map (fun e => (e.pri, e.obj)) ∧
+    (finish H plt (ordRef H plt n out seq l popped)).2 =
+        ⟨seq, PQ.restore H plt (PQ.popN H plt (popsOf n l.length) popped l).1
+                (PQ.popN H plt (popsOf n l.length) popped l).2⟩ := by
+  induction n generalizing out l popped with
+  | zero =>
+    cases l with
+    | nil => simp [ordRef, finish, PQ.yields, PQ.popN, popsOf]
+    | cons a t =>
+      have : popsOf 0 (a :: t).length = 0 := by simp [popsOf]
+      simp only [ordRef, finish, this, PQ.popN, PQ.yields]
+      cases H.pop (Entry.lt plt) (a :: t) with
+      | none => simp
+      | some r => simp [PQ.yields]
+  | succ n ih =>
+    cases l with
+    | nil => simp [ordRef, finish, PQ.yields, PQ.popN, popsOf]
+    | cons a t =>
+      obtain ⟨m, hm⟩ : ∃ m, popsOf (n + 1) (a :: t).length = m + 1 := by
+        refine ⟨popsOf (n + 1) (a :: t).length - 1, ?_⟩
+        simp only [popsOf, List.length_cons]; split <;> omega
+      have hy : PQ.yields H plt (n + 1 + 1) (a :: t) = match H.pop (Entry.lt plt) (a :: t) with
+          | none => [a]
+          | some (_, l') => a :: PQ.yields H plt (n + 1) l' := rfl
+      simp only [ordRef, hm, PQ.popN, hy]
+      cases hpop : H.pop (Entry.lt plt) (a :: t) with
+      | none => simp [finish]
+      | some r =>
+        obtain ⟨e, l'⟩ := r
+        have hl := hlen _ _ _ hpop
+        have hm' : popsOf n l'.length = m := by
+          simp only [popsOf, List.length_cons] at hm hl ⊢
+          split at hm <;> split <;> omega
+        obtain ⟨h1, h2⟩ := ih (out ++ [(a.pri, a.obj)]) l' (popped ++ [e])
+        simp only [h1, h2, hm']
+        simp
+
+theorem ordRef_exc (hpop : ∀ a t, H.pop (Entry.lt plt) (a :: t) ≠ none)
+    (n : Nat) (out : List (π × Nat)) (seq : Nat) (l popped : List (Entry π)) :
+    (finish H plt (ordRef H plt n out seq l popped)).1.exc = none := by
+  induction n generalizing out l popped with
+  | zero => cases l <;> simp [ordRef, finish]
+  | succ n ih =>
+    cases l with
+    | nil => simp [ordRef, finish]
+    | cons a t =>
+      simp only [ordRef]
+      cases h : H.pop (Entry.lt plt) (a :: t) with
+      | none => exact absurd h (hpop a t)
+      | some r => obtain ⟨e, l'⟩ := r; exact ih _ _ _
+
+/-- **`ordereditems()`** driven by `k` calls of `next()` and then `close()` (the generated
+    definition: the `while`/`yield`/`try … finally` body, statement by statement) yields the
+    (priority, object) pairs of the model's `PQ.ordered` and leaves the model's state.
+    The model counts pops by the length of the heap, so the heap library must pop exactly one
+    element (every lawful one does: `ordereditems_eq_lawful`). -/
+theorem ordereditems_eq
+    (hlen : ∀ l e l', H.pop (Entry.lt plt) l = some (e, l') → l'.length + 1 = l.length)
+    (s : PQ π) (k : Nat) :
+    (Gen.PQ.ordereditems H plt s k).1.out = (PQ.ordered H plt s k).1.map (fun e => (e.pri, e.obj)) ∧
+    (Gen.PQ.ordereditems H plt s k).2 = (PQ.ordered H plt s k).2 := by
+  cases k with
+  | zero => simp [Gen.PQ.ordereditems, PQ.ordered]
+  | succ n =>
+    obtain ⟨h1, h2⟩ := ordRef_spec H plt hlen n [] s.seq s.pq []
+    rw [ordereditems_unfold, h1, h2]
+    simp [PQ.ordered, popsOf]
+
+/-- no exception comes out of `next()` / `close()` when `heappop` pops every non-empty heap -/
+theorem ordereditems_exc (hpop : ∀ a t, H.pop (Entry.lt plt) (a :: t) ≠ none) (s : PQ π) (k : Nat) :
+    (Gen.PQ.ordereditems H plt s k).1.exc = none := by
+  cases k with
+  | zero => simp [Gen.PQ.ordereditems]
+  | succ n => rw [ordereditems_unfold]; exact ordRef_exc H plt hpop n [] s.seq s.pq []
+
+/-- for every lawful heap library (the hypothesis of all C17 theorems): the generated generator
+    is the model's `PQ.ordered`, and never raises -/
+theorem ordereditems_eq_lawful (hl : HeapLib.Lawful H (Entry.lt plt)) (s : PQ π) (k : Nat) :
+    Gen.PQ.ordereditems H plt s k =
+      (⟨(PQ.ordered H plt s k).1.map (fun e => (e.pri, e.obj)), none⟩, (PQ.ordered H plt s k).2) := by
+  have hlen : ∀ l e l', H.pop (Entry.lt plt) l = some (e, l') → l'.length + 1 = l.length := by
+    intro l e l' h
+    cases l with
+    | nil => rw [hl.pop_nil] at h; cases h
+    | cons a t =>
+      obtain ⟨l2, h2, hp, _⟩ := hl.pop_cons a t
+      rw [h2] at h; cases h
+      simp [hp.length_eq]
+  have hpop : ∀ a t, H.pop (Entry.lt plt) (a :: t) ≠ none := by
+    intro a t h
+    obtain ⟨l2, h2, _⟩ := hl.pop_cons a t
+    rw [h2] at h; cases h
+  obtain ⟨h1, h2⟩ := ordereditems_eq H plt hlen s k
+  have h3 := ordereditems_exc H plt hpop s k
+  cases hr : Gen.PQ.ordereditems H plt s k with
+  | mk r st =>
+    cases r with
+    | mk out exc => simp_all
 end Asynkit.GenEqPQ
